@@ -407,19 +407,29 @@ def compare_groups(run, prop, key_fn, comparable_fn, what):
         if len(members) < 2:
             continue
         ngroups += 1
-        base_case, base = members[0]
-        for case, ts in members[1:]:
-            for sec in sorted(set(base) & set(ts)):
-                mode = comparable_fn(base_case, case, sec)
-                if not mode:
-                    continue
-                ncmp += 1
-                a, b = base[sec], ts[sec]
-                same = (a[0] == b[0] and a[2] == b[2]) if mode == "raw" else (a[1] == b[1])
-                if not same:
-                    sig = dict(property=prop, kind=case.kind, state=case.state, op=sec, fclass="transcript-differs", site="oracle", qcls=what)
-                    run.add_finding(sig, case, "section %s (%s) of %s differs from %s p=%s state=%s opt=%d on input %s"
-                                    % (sec, mode, "%s p=%s state=%s opt=%d" % (case.kind, case.p, case.state, case.opt), base_case.kind, base_case.p, base_case.state, base_case.opt, case.iname))
+        # per section: every member is compared with the first earlier member it is comparable with (a member that is comparable
+        # with none becomes a further reference), so that e.g. two FM-index configurations are compared with each other even when
+        # the first member of the group has no such section
+        refs = {}
+        for case, ts in members:
+            for sec in sorted(ts):
+                lst = refs.setdefault(sec, [])
+                done = False
+                for base_case, base in lst:
+                    mode = comparable_fn(base_case, case, sec)
+                    if not mode:
+                        continue
+                    done = True
+                    ncmp += 1
+                    a, b = base[sec], ts[sec]
+                    same = (a[0] == b[0] and a[2] == b[2]) if mode == "raw" else (a[1] == b[1])
+                    if not same:
+                        sig = dict(property=prop, kind=case.kind, state=case.state, op=sec, fclass="transcript-differs", site="oracle", qcls=what)
+                        run.add_finding(sig, case, "section %s (%s) of %s differs from %s p=%s state=%s opt=%d on input %s"
+                                        % (sec, mode, "%s p=%s state=%s opt=%d" % (case.kind, case.p, case.state, case.opt), base_case.kind, base_case.p, base_case.state, base_case.opt, case.iname))
+                    break
+                if not done:
+                    lst.append((case, ts))
     run.counters["eval.transcript_comparison"] += ncmp
     return {"transcript_groups_compared": ngroups, "transcript_section_comparisons": ncmp}
 
@@ -587,10 +597,10 @@ def c10(prop, tier, seed, wd, explore, limit, kinds, we):
     if limit:
         cases = cases[:limit]
     wall = run.run_pool_all(cases)
-    rule = ("a case is one pool_driver process running N seeded pool lifecycles (1-8 workers, 0-64 tasks, four producer protocols: add-all/stop/wait, wait-for-completion then stop, a task stops the pool, tasks trickling in); "
+    rule = ("a case is one pool_driver process running N seeded pool lifecycles (1-8 workers, 0-64 tasks, five producer protocols: add-all/stop/wait, wait-for-completion then stop, a task stops the pool, tasks trickling in, running tasks handing over further tasks after the stop); "
             "per task an execution counter and an in-flight flag, per lifecycle the hook event log (enqueue/pop/begin/end/exit) is checked offline; plain flavor with the pthread_cond_wait interposer widening the "
             "predicate-to-block window and seeded delays at the schedule points, deadlock decided from scheduler state; repeated without delays and under TSan; distinct = process seeds, non-trivial = completed")
-    return conc_finish(prop, tier, seed, run, wall, rule, explore, we, ("window_hits", "add_in_window", "tasks_0", "workers_1", "protocol_a", "protocol_b", "protocol_c", "protocol_d"), {"lifecycles": run.counters.get("eval.lifecycle", 0)})
+    return conc_finish(prop, tier, seed, run, wall, rule, explore, we, ("window_hits", "add_in_window", "tasks_0", "workers_1", "protocol_a", "protocol_b", "protocol_c", "protocol_d", "protocol_e"), {"lifecycles": run.counters.get("eval.lifecycle", 0)})
 
 @register("C09")
 def c09(prop, tier, seed, wd, explore, limit, kinds, we):
@@ -603,13 +613,19 @@ def c09(prop, tier, seed, wd, explore, limit, kinds, we):
             cases.append(PoolCase("blocks", "plain", gen.splitmix(seed, 20 + rep, i), ["--schedules", str(ns), "--delay-us", str([150, 400][rep])], iname, S))
         if i % 2 == 0 or tier == "thorough":
             cases.append(PoolCase("blocks", "tsan", gen.splitmix(seed, 23, i), ["--schedules", str(max(4, ns // 8)), "--delay-us", "100"], iname, S))
+    # tens of thousands of tiny blocks of unequal sizes: blocks complete while the producer is still cutting and growing its tables
+    r = P.rng_for(seed, prop, 6)
+    many = [("short%d" % k, gen.norm(set(bytes(r.choice(b"abcdefgh") for _ in range(r.randint(1, 7))) for _ in range(nn)))) for k, nn in enumerate([26000, 40000] if tier == "quick" else [26000, 40000, 90000, 150000])]
+    for i, (iname, S) in enumerate(many):
+        for rep, cuts in enumerate(["1", "6,9,14"]):
+            cases.append(PoolCase("blocks", "plain", gen.splitmix(seed, 26 + rep, i), ["--schedules", "3" if tier == "quick" else "12", "--delay-us", "0", "--cuts", cuts, "--threads", str([8, 16][(i + rep) % 2])], iname, S))
     if limit:
         cases = cases[:limit]
     wall = run.run_pool_all(cases)
     rule = ("a case is one pool_driver process building the block dictionary of one input under N seeded schedules: cut size from one string per block to one block, overhead, 2-16 threads, delay plans at the block "
             "schedule points forcing reversed / rotated / random completion orders and a slow producer; each build is compared bytewise with the image of the single-threaded build, the block event chain "
             "(queued->begin->built->stored exactly once, all before return) and every locate/extract against the model; distinct = (input, seed), non-trivial = completed")
-    return conc_finish(prop, tier, seed, run, wall, rule, explore, we, ("blocks_ge2", "blocks_1", "blocks_eq_n", "order_not_input_order"), {"max_concurrent_builders": run.counters.get("max_concurrent_builders", 0)})
+    return conc_finish(prop, tier, seed, run, wall, rule, explore, we, ("blocks_ge2", "blocks_1", "blocks_eq_n", "blocks_ge1000", "order_not_input_order"), {"max_concurrent_builders": run.counters.get("max_concurrent_builders", 0)})
 
 @register("C11")
 def c11(prop, tier, seed, wd, explore, limit, kinds, we):
